@@ -20,7 +20,7 @@ XOR                  ``autobahn.util.xor``                     ``bytes(a ^ b ...
 ``selfcheck()`` pins the references to published vectors (RFC 2202/4231 HMAC, RFC 6070 and RFC 7914
 PBKDF2, RFC 4226 HOTP, RFC 6238 TOTP, RFC 7677 SCRAM-SHA-256, RFC 8032 Ed25519, the Argon2 command
 line vector committed in the repository's tests) before any verdict is computed with them.  A
-reference that disagrees with a published vector raises ``ReferenceError`` (harness error, never a
+reference that disagrees with a published vector raises ``RefError`` (harness error, never a
 verdict).
 
 Nothing in this file imports autobahn.
